@@ -19,6 +19,8 @@
 -/
 import XsVerif.Model.Modes
 import XsVerif.Lemmas.Modes
+import XsVerif.Model.AttrDefaults
+import XsVerif.Lemmas.AttrDefaults
 
 namespace XsVerif.Props.C04
 open XsVerif.Modes
@@ -374,5 +376,143 @@ example : firstFacet ([.lexical 1, .lexical 2] : List (Member Nat)) = none ∧
 theorem union_first_error_counterexample :
     unionEvents .strict ([.lexical 1, .facet 2 []] : List (Member Nat)) 0 = [0] ∧
     unionEvents .lax ([.lexical 1, .facet 2 []] : List (Member Nat)) 0 = [2] := by decide
+
+/-! ### value constraints and the document-level state (Model/AttrDefaults.lean)
+
+  `verdicts_agree` needs `events sv = events sd`.  The part of the descent where that equality could
+  break silently — attributes (and simple content) that the instance OMITS but that the schema
+  constrains with `default` / `fixed`, decoded by a type with a document-level effect (xs:IDREF,
+  xs:IDREFS, xs:ID, xs:QName) — is modelled, and the model is the oracle for BOTH runs: the harness
+  compares `run …` with the events of `iter_errors` and with the events of `iter_decode`.
+  S: the reference errors of a document are the decoded IDREF values (explicit or supplied by a value
+  constraint) that no decoded ID value defines.  Unbounded in the number of elements, attributes,
+  declarations and list items. -/
+section AttrDefaults
+open XsVerif.AttrDefaults
+
+variable (toks : String → List String) (pfx : String → Option String) (isXsi : String → Bool)
+  (ns : List String) (v11 ud : Bool) (xsi : List Decl)
+
+/-- which attributes an attribute group decodes: those of the instance and, for every attribute that
+    the instance omits, the fixed value or (with `use_defaults`) the default value of a
+    non-prohibited declaration — for validation and for decoding alike (the function has no other
+    parameter). -/
+theorem processed_attributes_spec (ds : List Decl) (obj : Attrs) (k v : String) :
+    (k, v) ∈ effective ud ds obj ↔
+      (k, v) ∈ obj ∨ (hasKey k obj = false ∧ ∃ d ∈ ds, d.name = k ∧ d.use ≠ .prohibited ∧
+        (d.fixed = some v ∨ (d.fixed = none ∧ d.dflt = some v ∧ ud = true))) := by
+  rw [mem_effective, mem_valueConstraints]
+
+example : effective true [⟨"ref", .optional, none, some "a1", .idref⟩, ⟨"fx", .optional, some "F", none, .plain⟩,
+      ⟨"id", .optional, none, none, .id⟩] [("fx", "F")] = [("fx", "F"), ("ref", "a1")] := by decide
+example : effective false [⟨"ref", .optional, none, some "a1", .idref⟩, ⟨"r3", .optional, some "a3", none, .idref⟩] []
+    = [("r3", "a3")] := by decide
+
+/-- the reference errors of a run are exactly the decoded IDREF values that no decoded ID defines -/
+theorem dangling_iff (doc : List Elem) (k : String) :
+    Ev.dangling k ∈ run toks pfx isXsi ns v11 ud xsi doc ↔
+      k ∈ refsOf toks (docActsWith effective isXsi ud xsi doc) ∧
+      k ∉ idsOf (docActsWith effective isXsi ud xsi doc) := by
+  obtain ⟨_, hd, ho⟩ := exec_spec toks pfx ns v11 (docActsWith effective isXsi ud xsi doc) St.init inv_init
+  have hn := exec_events_noDangling toks pfx ns v11 (docActsWith effective isXsi ud xsi doc) St.init
+    (docActs_noDangling effective isXsi ud xsi doc)
+  simp only [run, runWith, List.mem_append, List.mem_map, danglings, List.mem_filter, decide_eq_true_eq]
+  constructor
+  · rintro (h | ⟨x, ⟨h1, h2⟩, hx⟩)
+    · exact absurd rfl (hn _ h k)
+    · cases hx
+      have h1' := (ho k).mp h1
+      have h2' : k ∉ idsOf (docActsWith effective isXsi ud xsi doc) := fun hc => h2 ((hd k).mpr (Or.inr hc))
+      simp only [St.init, List.not_mem_nil, false_or] at h1'
+      rcases h1' with h1' | h1'
+      · exact ⟨h1', h2'⟩
+      · exact absurd h1' h2'
+  · rintro ⟨h1, h2⟩
+    refine Or.inr ⟨k, ⟨(ho k).mpr (Or.inr (Or.inl h1)), ?_⟩, rfl⟩
+    intro hc
+    rcases (hd k).mp hc with hc | hc
+    · cases hc
+    · exact h2 hc
+
+/-- a document has no reference error exactly when every decoded IDREF is a decoded ID -/
+theorem no_reference_error_iff (doc : List Elem) :
+    (∀ k, Ev.dangling k ∉ run toks pfx isXsi ns v11 ud xsi doc) ↔
+      ∀ k ∈ refsOf toks (docActsWith effective isXsi ud xsi doc),
+        k ∈ idsOf (docActsWith effective isXsi ud xsi doc) := by
+  constructor
+  · intro h k hk
+    by_cases hi : k ∈ idsOf (docActsWith effective isXsi ud xsi doc)
+    · exact hi
+    · exact absurd ((dangling_iff toks pfx isXsi ns v11 ud xsi doc k).mpr ⟨hk, hi⟩) (h k)
+  · intro h k hk
+    obtain ⟨h1, h2⟩ := (dangling_iff toks pfx isXsi ns v11 ud xsi doc k).mp hk
+    exact h2 (h k h1)
+
+/-- an IDREF attribute that the instance omits and the schema constrains IS a reference of the
+    document (fixed always, default when `use_defaults`) … -/
+theorem constrained_idref_is_reference (doc : List Elem) (e : Elem) (d : Decl) (v : String)
+    (he : e ∈ doc) (hl : lookup d.name e.decls = some d) (hk : d.kind = .idref)
+    (hu : d.use ≠ .prohibited) (hm : hasKey d.name e.attrs = false)
+    (hv : d.fixed = some v ∨ (d.fixed = none ∧ d.dflt = some v ∧ ud = true)) :
+    v ∈ refsOf toks (docActsWith effective isXsi ud xsi doc) := by
+  have hd : d ∈ e.decls := List.mem_of_find?_eq_some hl
+  have hmem : (d.name, v) ∈ effective ud e.decls e.attrs :=
+    (processed_attributes_spec ud e.decls e.attrs d.name v).mpr (Or.inr ⟨hm, d, hd, rfl, hu, hv⟩)
+  have hpost : Act.post .idref v ∈ attrActs isXsi xsi e.decls (d.name, v) := by
+    simp [attrActs, hl, hu, declActs, hk]
+  have hact : Act.post .idref v ∈ docActsWith effective isXsi ud xsi doc := by
+    simp only [docActsWith, List.mem_flatMap]
+    refine ⟨e, he, ?_⟩
+    simp only [elemActsWith, groupActsWith, List.mem_append, List.mem_cons, List.mem_flatMap]
+    exact Or.inl (Or.inr (Or.inr ⟨_, hmem, hpost⟩))
+  simp only [refsOf, List.mem_flatMap]
+  exact ⟨_, hact, by simp [Act.refs]⟩
+
+/-- … so when no ID of the document defines it, every run reports it. -/
+theorem constrained_idref_dangling (doc : List Elem) (e : Elem) (d : Decl) (v : String)
+    (he : e ∈ doc) (hl : lookup d.name e.decls = some d) (hk : d.kind = .idref)
+    (hu : d.use ≠ .prohibited) (hm : hasKey d.name e.attrs = false)
+    (hv : d.fixed = some v ∨ (d.fixed = none ∧ d.dflt = some v ∧ ud = true))
+    (hid : v ∉ idsOf (docActsWith effective isXsi ud xsi doc)) :
+    Ev.dangling v ∈ run toks pfx isXsi ns v11 ud xsi doc :=
+  (dangling_iff toks pfx isXsi ns v11 ud xsi doc v).mpr
+    ⟨constrained_idref_is_reference toks isXsi ud xsi doc e d v he hl hk hu hm hv, hid⟩
+
+example : run (fun s => [s]) (fun _ => none) (fun _ => false) [] false true []
+    [⟨[⟨"id", .optional, none, none, .id⟩], [("id", "b1")], none⟩,
+     ⟨[⟨"ref", .optional, none, some "a1", .idref⟩], [], none⟩] = [.dangling "a1"] := by decide
+example : run (fun s => [s]) (fun _ => none) (fun _ => false) [] false true []
+    [⟨[⟨"ref", .optional, none, some "a1", .idref⟩], [], none⟩,
+     ⟨[⟨"id", .optional, none, none, .id⟩], [("id", "a1")], none⟩] = [] := by decide
+
+/-- the same for the simple content of an empty element declared with a default / fixed IDREF -/
+theorem constrained_text_idref_is_reference (doc : List Elem) (e : Elem) (td : TextDecl) (v : String)
+    (he : e ∈ doc) (ht : e.text = some (td, "")) (hk : td.kind = .idref)
+    (hv : td.fixed = some v ∨ (td.fixed = none ∧ td.dflt = some v ∧ ud = true)) :
+    v ∈ refsOf toks (docActsWith effective isXsi ud xsi doc) := by
+  have hpost : Act.post .idref v ∈ textActs ud td "" := by
+    rcases hv with hv | ⟨h1, h2, h3⟩
+    · simp [textActs, hv, hk]
+    · simp [textActs, h1, h2, h3, hk]
+  have hact : Act.post .idref v ∈ docActsWith effective isXsi ud xsi doc := by
+    simp only [docActsWith, List.mem_flatMap]
+    refine ⟨e, he, ?_⟩
+    simp only [elemActsWith, ht, List.mem_append]
+    exact Or.inr hpost
+  simp only [refsOf, List.mem_flatMap]
+  exact ⟨_, hact, by simp [Act.refs]⟩
+
+/-- Processing the value constraints of the omitted attributes is needed for that: a descent that
+    decodes only the attributes written in the instance (what a validation-only shortcut would do)
+    accepts the document `<item id="b1"/>` + omitted `ref : xs:IDREF default="a1"` that the real
+    descent rejects.  Replayed on the real code by the harness (witness case of family V). -/
+theorem ignoring_constraints_counterexample :
+    let doc : List Elem := [⟨[⟨"id", .optional, none, none, .id⟩, ⟨"ref", .optional, none, some "a1", .idref⟩],
+                             [("id", "b1")], none⟩]
+    run (fun s => [s]) (fun _ => none) (fun _ => false) [] false true [] doc = [.dangling "a1"] ∧
+    runWith effectiveIgnoringConstraints (fun s => [s]) (fun _ => none) (fun _ => false) [] false true [] doc = [] := by
+  decide
+
+end AttrDefaults
 
 end XsVerif.Props.C04
